@@ -30,7 +30,9 @@ func init() {
 			{Name: "lockstep", Variant: "plain", N: core.Tiered(8*150, 8*15000), Run: c03Lockstep},
 			{Name: "lockstep-asan", Variant: "asan", N: core.Tiered(8*40, 8*3000), Run: c03LockstepAsan,
 				Env: []string{"ASAN_OPTIONS=detect_leaks=0:halt_on_error=1:abort_on_error=1"}},
-			{Name: "abi", Variant: "plain", N: core.Tiered(41*3, 41*250), Run: c03ABI, TimeoutS: 120},
+			{Name: "abi", Variant: "plain", N: core.Tiered(41*3, 41*250), Run: func(c *core.Ctx) { c03ABI(c, false) }, TimeoutS: 120},
+			// the two table-parameter models, whose parameter block is laid out for the widest table of ALL sets
+			{Name: "abi-tables", Variant: "plain", N: core.Tiered(60, 2000), Run: func(c *core.Ctx) { c03ABI(c, true) }, TimeoutS: 120},
 		},
 		RequireTags: func(string) []string { return []string{"alloc:guard-after", "alloc:guard-before", "alloc:malloc", "abi:initstates", "abi:states"} },
 	})
@@ -130,11 +132,17 @@ func readResult(path string) (outs, states, ins, pars []float64, err error) {
 	return
 }
 
-func c03ABI(c *core.Ctx) {
+func c03ABI(c *core.Ctx, tablesOnly bool) {
 	names := ModelNames()
 	model := names[c.Idx%len(names)]
-	shapes := [][3]int{{1, 1, 1}, {3, 1, 1}, {4, 2, 2}, {5, 2, 3}, {2, 2, 2}, {6, 4, 1}}
+	if tablesOnly {
+		model = []string{"Storage", "RatingCurvePartition"}[c.Idx%2]
+	}
+	shapes := [][3]int{{1, 1, 1}, {3, 1, 1}, {4, 2, 2}, {5, 2, 3}, {2, 2, 2}, {6, 4, 1}, {1, 2, 1}, {2, 5, 3}, {3, 4, 7}, {1, 3, 2}} // also more parameter sets / input blocks than cells
 	sh := shapes[c.R.Intn(len(shapes))]
+	if tablesOnly && c.R.Bool(0.5) {
+		sh = shapes[6+c.R.Intn(4)]
+	}
 	N, P, B := sh[0], sh[1], sh[2]
 	T := []int{1, 3, 12, 30}[c.R.Intn(4)]
 	wc := 0
